@@ -92,8 +92,48 @@ def gen_ok_crate(li_lits, loc_lits, subs, features=("macros",), name="macros_ok"
     tag = "" if tuple(features) == ("macros",) else "-" + "_".join(features)
     d = crate_dir(name, features)
     src = [PRELUDE.replace("PROJ", os.path.join(HARNESS, "src", "proj.rs"))]
+    # hygiene: invocations by full path from a module with no imports at all, and from one whose own items are called
+    # like the library's types (an expansion must name what it needs through $crate, not through the caller's scope)
+    src.append(r"""
+mod bare {
+    pub fn li() -> unic_langid::LanguageIdentifier { unic_langid::langid!("en-Latn-US-valencia") }
+    pub fn lo() -> unic_locale::Locale { unic_locale::locale!("de-AT-u-ca-buddhist-t-en-h0-hybrid-x-foo") }
+    pub fn ls() -> Vec<unic_langid::LanguageIdentifier> { unic_langid::langids!["und", "sr-Cyrl"] }
+    pub fn sl() -> Vec<unic_langid::LanguageIdentifier> { let s: &[unic_langid::LanguageIdentifier] = unic_langid::langid_slice!["pl", "und-419"]; s.to_vec() }
+    pub fn lc() -> Vec<unic_locale::Locale> { unic_locale::locales!["en-x-a", "und"] }
+    pub fn la() -> unic_langid::subtags::Language { unic_langid::lang!("und") }
+}
+#[allow(dead_code, non_snake_case)]
+mod shadow {
+    pub struct LanguageIdentifier;
+    pub struct Locale;
+    pub struct Language;
+    pub struct Script;
+    pub struct Region;
+    pub struct Variant;
+    pub struct ExtensionsMap;
+    pub mod subtags { pub struct Language; }
+    pub mod unic_langid_impl {}
+    pub fn li() -> unic_langid::LanguageIdentifier { unic_langid::langid!("sl-rozaj-1994") }
+    pub fn lo() -> unic_locale::Locale { unic_locale::locale!("und-Latn-u-attr-nu-latn") }
+    pub fn sc() -> unic_langid::subtags::Script { unic_langid::script!("cyrl") }
+    pub fn rg() -> unic_langid::subtags::Region { unic_langid::region!("419") }
+    pub fn va() -> unic_langid::subtags::Variant { unic_langid::variant!("1996") }
+}
+""")
     src.append("fn main() {\n    std::panic::set_hook(Box::new(|_| {}));")
-    n = 0
+    src.append('    li("langid", "en-Latn-US-valencia", catch_unwind(|| bare::li()));')
+    src.append('    loc("locale", "de-AT-u-ca-buddhist-t-en-h0-hybrid-x-foo", catch_unwind(|| bare::lo()));')
+    src.append('    { let v = bare::ls(); li("langids", "und", Ok(v[0].clone())); li("langids", "sr-Cyrl", Ok(v[1].clone())); }')
+    src.append('    { let v = bare::sl(); li("langid_slice", "pl", Ok(v[0].clone())); li("langid_slice", "und-419", Ok(v[1].clone())); }')
+    src.append('    { let v = bare::lc(); loc("locales", "en-x-a", Ok(v[0].clone())); loc("locales", "und", Ok(v[1].clone())); }')
+    src.append('    out("language", "und", catch_unwind(|| bare::la()), |v| (b(v.as_str()), "und".parse::<unic_langid::subtags::Language>().map(|p| p == *v).unwrap_or(false)));')
+    src.append('    li("langid", "sl-rozaj-1994", catch_unwind(|| shadow::li()));')
+    src.append('    loc("locale", "und-Latn-u-attr-nu-latn", catch_unwind(|| shadow::lo()));')
+    src.append('    out("script", "cyrl", catch_unwind(|| shadow::sc()), |v| (b(v.as_str()), "cyrl".parse::<unic_langid::subtags::Script>().map(|p| p == *v).unwrap_or(false)));')
+    src.append('    out("region", "419", catch_unwind(|| shadow::rg()), |v| (b(v.as_str()), "419".parse::<unic_langid::subtags::Region>().map(|p| p == *v).unwrap_or(false)));')
+    src.append('    out("variant", "1996", catch_unwind(|| shadow::va()), |v| (b(v.as_str()), "1996".parse::<unic_langid::subtags::Variant>().map(|p| p == *v).unwrap_or(false)));')
+    n = 14
     for s in li_lits:
         src.append('    li("langid", "%s", catch_unwind(AssertUnwindSafe(|| langid!("%s"))));' % (s, s))
         n += 1
